@@ -246,12 +246,15 @@ impl Cont {
             }
             Cont::Triangular { min, max, mode } => {
                 let r = max - min;
+                // both values as sums of positive terms (no 1 - small cancellation)
                 if x < mode {
                     let c = (x - min) * (x - min) / (r * (mode - min));
-                    (c, 1.0 - c)
+                    let s = (max - mode) / r + (mode - x) * ((x - min) + (mode - min)) / (r * (mode - min));
+                    (c, s)
                 } else {
                     let s = (max - x) * (max - x) / (r * (max - mode));
-                    (1.0 - s, s)
+                    let c = (mode - min) / r + (x - mode) * ((max - mode) + (max - x)) / (r * (max - mode));
+                    (c, s)
                 }
             }
             Cont::Cauchy { median, scale } => {
@@ -476,14 +479,14 @@ impl Cont {
         let mut hi = shi.min(f64::MAX);
         let q = 1.0 - p;
         loop {
-            let (ol, oh) = (to_ord(lo), to_ord(hi));
+            let (ol, oh) = (to_ord(lo) as i128, to_ord(hi) as i128);
             if oh - ol <= 1 {
                 break;
             }
             if (lo > 0.0 || hi < 0.0) && (hi - lo) <= 1e-13 * lo.abs().max(hi.abs()) {
                 break;
             }
-            let mid = from_ord(ol + (oh - ol) / 2);
+            let mid = from_ord((ol + (oh - ol) / 2) as i64);
             let below = if p <= 0.5 { self.cdf(mid) < p } else { self.sf(mid) > q };
             if below {
                 lo = mid;
